@@ -103,6 +103,13 @@ def gen_cases(ctx):
         m = rng.choice([1, 1, 2, 2, 0, 3])
         nbad = rng.choice([0, 0, 0, m])
         cases.append(sched_case(reqs, m, random_merge(rng, thread_actions(reqs, m)), nbad))
+    # the mutex model itself against the real sync.RWMutex: random scripts of lock calls
+    for _ in range(150 if quick else 1500):
+        n = rng.choice([2, 3, 3, 4])
+        ops = []
+        for _ in range(rng.randrange(3, 14)):
+            ops.append({"t": rng.randrange(n), "op": rng.choice(["RLock", "RLock", "RUnlock", "RUnlock", "Lock", "Unlock", "Unlock"])})
+        cases.append({"kind": "rwm", "n": n, "mops": ops, "reqs": []})
     # unscripted stress
     for k, m, it in ([(4, 2, 300)] if quick else [(4, 2, 2000), (8, 3, 1500), (2, 1, 3000)]):
         cases.append({"kind": "stress", "reqs": [dict(rng.choice([DUAL, DUAL, V4, V6])) for _ in range(k)], "reloads": m,
@@ -120,7 +127,13 @@ def gobs(o):
     return "(%s, %s, %s)" % (gbool(o["err"] != ""), gopt(v4, str), gopt(v6, str))
 
 
+MOPS = {"RLock": "MRLock", "RUnlock": "MRUnlock", "Lock": "MLock", "Unlock": "MUnlock"}
+
+
 def term(c, r):
+    if c["kind"] == "rwm":
+        return "(CRwm %d %s %s)" % (c["n"], glist(c["mops"], lambda o: "(%d, %s)" % (o["t"], MOPS[o["op"]])),
+                                    glist(r["mobs"] or [], lambda o: "(%d, %s)" % (o["code"], glist(o["blocked"], gbool))))
     if c["kind"] == "depth":
         sels = r["sels"] or []
         if any(d < 0 or d > 1000 for _, d in sels) or not 0 <= r["final"] <= 1000:
@@ -138,12 +151,16 @@ def describe(c):
     if c["kind"] == "sched":
         return "k=%d m=%d bad=%s script=%s" % (len(c["reqs"]), c["reloads"], c.get("bad") or [],
                                         " ".join("%s%d" % (a["op"], a["i"]) for a in c["script"]))
+    if c["kind"] == "rwm":
+        return "rwm n=%d %s" % (c["n"], " ".join("%d:%s" % (o["t"], o["op"]) for o in c["mops"]))
     return "%s %s" % (c["kind"], c["reqs"])
 
 
 def oracle(ctx, c, r):
     """the property's own statement on the implementation's observables"""
     kind = c["kind"]
+    if kind == "rwm":
+        return      # no property of conjure is involved: this only validates the model of sync.RWMutex
     if not r["completed"]:
         ctx.fail("stall/" + kind, "requests and reloads did not all complete within the bound (%s); blocked goroutines:\n%s"
                  % (describe(c), r["dump"][:3000]), {**c, "observed": {k: v for k, v in r.items() if k != "dump"}, "goroutines": r["dump"]})
@@ -213,6 +230,8 @@ def run(ctx):
             sub = "depth/" + ("dual" if c["reqs"][0]["v4"] and c["reqs"][0]["v6"] else "single" if c["reqs"][0]["v4"] or c["reqs"][0]["v6"] else "none")
         elif kind == "sched":
             sub = "sched/k%d/m%d" % (len(c["reqs"]), c["reloads"])
+        elif kind == "rwm":
+            sub = "rwm/" + ("blocking" if any(any(o["blocked"]) for o in r["mobs"] or []) else "free")
         ctx.count((kind, repr(c)), nontrivial=True, kind=sub)
         oracle(ctx, c, r)
         t = term(c, r)
@@ -224,7 +243,7 @@ def run(ctx):
     ctx.sample({"case": cases[0], "observed": {k: v for k, v in results[0].items() if k != "dump"}})
     ctx.sample({"case": cases[1], "observed": {k: v for k, v in results[1].items() if k != "dump"}})
     ctx.sample({"case": cases[-1], "observed": {k: v for k, v in results[-1].items() if k != "dump"}})
-    ctx.require_kinds(["depth/dual", "depth/single", "depth/none", "sched/k1/m1", "sched/k1/m2", "sched/k2/m1", "sched/k2/m2", "sched/k3/m2", "stress"])
+    ctx.require_kinds(["depth/dual", "depth/single", "depth/none", "sched/k1/m1", "sched/k1/m2", "sched/k2/m1", "sched/k2/m2", "sched/k3/m2", "stress", "rwm/blocking", "rwm/free"])
     mm = ctx.coq_mismatches("lock", HEADER, terms, "chk", shard=400, need_vo=["C13/Run.vo", "C13/Examples.vo"])
     if mm:
         ctx.cov["mismatches"] += len(mm)
